@@ -37,6 +37,7 @@ inductive Op
   | reqCapped (n : Nat)
   | capBegin
   | capEnd
+  | getPos
 deriving Repr
 
 inductive Resp
@@ -88,6 +89,10 @@ def reqCapped (n : Nat) : Prog Nat :=
   .op (.reqCapped n) fun | .nat n => .ret n | _ => .fail (.panic "resp")
 def capBegin : Prog Unit :=
   .op .capBegin fun | .unit => .ret () | _ => .fail (.panic "resp")
+/-- `Source::pos` — only differences of positions are used, so the model answers with the
+    number of octets the base source still holds (position = constant − that number) -/
+def getPos : Prog Nat :=
+  .op .getPos fun | .nat n => .ret n | _ => .fail (.panic "resp")
 def capEnd : Prog Bytes :=
   .op .capEnd fun | .bytes b => .ret b | _ => .fail (.panic "resp")
 
@@ -190,6 +195,7 @@ def stepG (s : G) : Op → Res (Resp × G)
         if l < f.buf.length then .error (.panic "advanced past end of limit") else
         .ok (.bytes f.buf, { s with limit := some (l - f.buf.length), frames := fs' })
       | none => .ok (.bytes f.buf, { s with limit := none, frames := fs' })
+  | .getPos => .ok (.nat s.data.length, s)
 
 def runG : Prog α → G → Res (α × G)
   | .ret a, s => .ok (a, s)
